@@ -21,6 +21,7 @@ import (
 	"errors"
 	"fmt"
 	"io"
+	"runtime/debug"
 	"sort"
 	"strings"
 	"testing"
@@ -76,24 +77,40 @@ func (b *c05Batch) Reset()         { b.ops = nil }
 
 // ---- alphabets ----
 
+// (set per tier at the start of the test, before any parallel work)
 var c05Alphabet = [][]byte{{0x01}, {0x01, 0x00}, {0x01, 0x01}, {0x10}, {0x15, 0x00}, {0x15, 0x23}, {0x15, 0x00, 0x00}}
+var c05AlphabetQuick = [][]byte{{0x01}, {0x01, 0x00}, {0x10}, {0x15, 0x00}, {0x15, 0x23}, {0x15, 0x00, 0x00}}
 
 // absent probes: "" (ends at the root boundary), 15 (ends at a nested node boundary / inside a partial
 // key), 00 02 23 1501 (diverge), 0102 (absent child of 01), 010000 (extends the leaf 0100)
 var c05Probes = [][]byte{{}, {0x00}, {0x02}, {0x01, 0x02}, {0x15}, {0x15, 0x01}, {0x23}, {0x01, 0x00, 0x00}}
+var c05ProbesQuick = [][]byte{{}, {0x02}, {0x01, 0x02}, {0x15}, {0x15, 0x01}, {0x01, 0x00, 0x00}}
 
+func c05KeyList(ks [][]byte) string {
+	var out []string
+	for _, k := range ks {
+		out = append(out, fmt.Sprintf("'%x'", k))
+	}
+	return strings.Join(out, ",")
+}
+
+// Values: 1, 29, 32 and 33 bytes of 0x33 (each a proper prefix of the next, so that a prefix
+// comparison instead of equality is visible).  29 bytes: a leaf with a one-byte partial key then
+// encodes to exactly 32 bytes (smallest node referenced by hash), with an empty partial key to 31
+// (largest inline node).  32/33: the V1 hashing threshold.
 var (
-	c05V1  = []byte{0x01}
-	c05V32 = bytes.Repeat([]byte{0x32}, 32)
+	c05V1  = bytes.Repeat([]byte{0x33}, 1)
+	c05V29 = bytes.Repeat([]byte{0x33}, 29)
+	c05V32 = bytes.Repeat([]byte{0x33}, 32)
 	c05V33 = bytes.Repeat([]byte{0x33}, 33)
 )
 
-func c05StateValues() [][]byte { return [][]byte{c05V1, c05V32, c05V33} }
+func c05StateValues() [][]byte { return [][]byte{c05V1, c05V29, c05V32, c05V33} }
 
 // values a verifier is asked to confirm: the three state values, the hash of the hashed one, and the
 // empty value (documented by Verify as "do not compare the value": an existence query)
 func c05QueryValues() [][]byte {
-	return [][]byte{c05V1, c05V32, c05V33, ref.Blake256(c05V33), {}}
+	return [][]byte{c05V1, c05V29, c05V32, c05V33, ref.Blake256(c05V33), {}}
 }
 
 func c05QueryKeys() [][]byte {
@@ -108,7 +125,9 @@ func c05ValName(v []byte) string {
 	case len(v) == 0:
 		return "empty"
 	case bytes.Equal(v, c05V1):
-		return "01"
+		return "v1"
+	case bytes.Equal(v, c05V29):
+		return "v29"
 	case bytes.Equal(v, c05V32):
 		return "v32"
 	case bytes.Equal(v, c05V33):
@@ -117,6 +136,14 @@ func c05ValName(v []byte) string {
 		return "H(v33)"
 	}
 	return fmt.Sprintf("%x", v)
+}
+
+func c05ValNames(vs [][]byte) string {
+	var vn []string
+	for _, v := range vs {
+		vn = append(vn, c05ValName(v))
+	}
+	return strings.Join(vn, ",")
 }
 
 func c05MapString(m map[string][]byte) string {
@@ -219,11 +246,25 @@ type c05State struct {
 	m   map[string][]byte
 }
 
-func c05States(maxEntries int) []c05State {
-	vals := c05StateValues()
+// c05Family: every map with minN..maxN entries over the key alphabet and the values vals.
+type c05Family struct {
+	minN, maxN int
+	vals       [][]byte
+}
+
+func c05States(fams []c05Family) []c05State {
+	var out []c05State
+	for _, f := range fams {
+		out = append(out, c05FamilyStates(f)...)
+	}
+	return out
+}
+
+func c05FamilyStates(f c05Family) []c05State {
+	vals := f.vals
 	var out []c05State
 	n := len(c05Alphabet)
-	for size := 0; size <= maxEntries; size++ {
+	for size := f.minN; size <= f.maxN; size++ {
 		for mask := 0; mask < 1<<n; mask++ {
 			var ks [][]byte
 			for i := 0; i < n; i++ {
@@ -354,6 +395,8 @@ type c05Ctx struct {
 	intern  map[string]int
 	seen    map[string]struct{}
 	samples []any
+	expired func() bool
+	capped  bool
 }
 
 func (c *c05Ctx) violate(sig, desc string, replay func() any) {
@@ -454,6 +497,10 @@ func (c *c05Ctx) checkProof(proof [][]byte, origin string, must map[string]bool)
 		}
 		c.seen[string(key)] = struct{}{}
 	}
+	if c.capped || c.expired() {
+		c.capped = true
+		return
+	}
 	c.cnt["proofs"]++
 	c.cnt["proofs:"+origin]++
 	built := false
@@ -524,17 +571,18 @@ func c05Subsets(n, maxSize int, f func(idx []int)) {
 }
 
 type c05Bounds struct {
-	maxEntries    int
-	subsetMax     int  // sub-set size bound for pools with the fixed foreign state / first neighbours
-	allNeighbours bool // every edit-distance-1 state as foreign state
-	neighbourMax  int  // sub-set size bound for the neighbour pools
-	substEntries  int  // byte alterations for states with at most this many entries
-	fullSubst     bool // all 255 other byte values (else the 8 single-bit flips)
-	orderedPairs  bool // key sets in both orders
+	families      []c05Family
+	subsetMax     int      // sub-set size bound for pools with the fixed foreign state / first neighbours
+	allNeighbours bool     // every edit-distance-1 state as foreign state
+	neighbourMax  int      // sub-set size bound for the neighbour pools
+	substEntries  int      // byte alterations for states with at most this many entries ...
+	substVals     [][]byte // ... whose values all come from this list
+	fullSubst     bool     // every single-bit flip at every offset (else: all 8 bits at the first 4 and the last offset, bit 0 elsewhere)
+	orderedPairs  bool     // key sets in both orders
 }
 
-func c05RunState(st c05State, b c05Bounds) *c05Ctx {
-	c := &c05Ctx{st: st, name: c05MapString(st.m), qkeys: c05QueryKeys(), qvals: c05QueryValues(),
+func c05RunState(st c05State, b c05Bounds, expired func() bool) *c05Ctx {
+	c := &c05Ctx{expired: expired, st: st, name: c05MapString(st.m), qkeys: c05QueryKeys(), qvals: c05QueryValues(),
 		cnt: map[string]int64{}, out: map[string]int64{}, vioSeen: map[string]int64{}, intern: map[string]int{}, seen: map[string]struct{}{}}
 	layout := trie.V0
 	if st.ver == 1 {
@@ -602,7 +650,11 @@ func c05RunState(st c05State, b c05Bounds) *c05Ctx {
 		switch {
 		case panicked:
 			c.out["generate:panic"]++
-			c.violate("Generate:panic@"+verifmc.PanicSite(msg), fmt.Sprintf("Generate panics for keys %v on state %s V%d: %s", qs, c.name, st.ver, strings.SplitN(msg, "\n", 2)[0]), replay)
+			site := verifmc.PanicSite(msg)
+			if len(st.m) == 0 {
+				site = "empty-state"
+			}
+			c.violate("Generate:panic:"+site, fmt.Sprintf("Generate panics for keys %v on state %s V%d: %s", qs, c.name, st.ver, strings.SplitN(msg, "\n", 2)[0]), replay)
 			continue
 		case gerr != nil && allPresent:
 			c.out["generate:error-all-present"]++
@@ -681,7 +733,15 @@ func c05RunState(st c05State, b c05Bounds) *c05Ctx {
 			c.checkProof(append(append([][]byte{}, base...), n), "duplicated-node", nil)
 			c.checkProof(append([][]byte{n}, base...), "duplicated-node", nil)
 		}
-		if len(st.m) <= b.substEntries {
+		substOK := len(st.m) <= b.substEntries
+		for _, v := range st.m {
+			in := false
+			for _, sv := range b.substVals {
+				in = in || bytes.Equal(v, sv)
+			}
+			substOK = substOK && in
+		}
+		if substOK {
 			for i, n := range base {
 				alter := func(a []byte) {
 					repl := append([][]byte{}, base...)
@@ -690,18 +750,14 @@ func c05RunState(st c05State, b c05Bounds) *c05Ctx {
 					c.checkProof(append(append([][]byte{}, base...), a), "altered-node-added", nil)
 				}
 				for pos := range n {
-					if b.fullSubst {
-						for x := 1; x < 256; x++ {
-							a := append([]byte{}, n...)
-							a[pos] ^= byte(x)
-							alter(a)
-						}
-					} else {
-						for bit := 0; bit < 8; bit++ {
-							a := append([]byte{}, n...)
-							a[pos] ^= 1 << bit
-							alter(a)
-						}
+					bits := 8
+					if !b.fullSubst && pos >= 4 && pos != len(n)-1 {
+						bits = 1
+					}
+					for bit := 0; bit < bits; bit++ {
+						a := append([]byte{}, n...)
+						a[pos] ^= 1 << bit
+						alter(a)
 					}
 				}
 			}
@@ -717,21 +773,33 @@ func TestVerif_C05(t *testing.T) {
 	logger.Patch(log.SetLevel(log.Critical), log.SetWriter(io.Discard))
 
 	b := verifmc.Pick(
-		c05Bounds{maxEntries: 3, subsetMax: 4, allNeighbours: false, neighbourMax: 4, substEntries: 2, fullSubst: false, orderedPairs: false},
-		c05Bounds{maxEntries: 4, subsetMax: 5, allNeighbours: true, neighbourMax: 3, substEntries: 3, fullSubst: false, orderedPairs: true},
+		c05Bounds{families: []c05Family{{0, 2, c05StateValues()}, {3, 3, [][]byte{c05V1, c05V33}}}, subsetMax: 3, allNeighbours: false, neighbourMax: 3, substEntries: 2, substVals: [][]byte{c05V1, c05V33}, fullSubst: false, orderedPairs: false},
+		c05Bounds{families: []c05Family{{0, 3, c05StateValues()}, {4, 4, [][]byte{c05V1, c05V33}}}, subsetMax: 5, allNeighbours: true, neighbourMax: 3, substEntries: 3, substVals: c05StateValues(), fullSubst: true, orderedPairs: true},
 	)
-	states := c05States(b.maxEntries)
-	r.Rule = fmt.Sprintf("states: every map with <= %d entries over keys {01,0100,0101,10,1500,1523,150000} x values {01, 32 bytes, 33 bytes}, V0 and V1, built with the real trie, root compared with the reference root, persisted with WriteDirty to a map database. "+
-		"Completeness: Generate(root, Q, db) for every key set Q, |Q|<=2 (ordered pairs: %t) over the 7 keys + 8 absent probes ('',00,02,0102,15,1501,23,010000); a successful Generate must let every present key of Q verify with its value and as existence query; all-present Q must generate. "+
-		"Soundness: on every generated proof and every adversarial proof (all sub-sets of size <= %d of nodes(S) u nodes(S') for the fixed foreign state and %s [size <= %d], honest full set as is/reversed/with each node duplicated, and for states of <= %d entries every %s of every node both replacing the node and added to the honest set) Verify is called for all 15 keys x {01,v32,v33,H(v33),empty}; "+
+	if !verifmc.Thorough() {
+		c05Alphabet, c05Probes = c05AlphabetQuick, c05ProbesQuick
+	}
+	debug.SetGCPercent(400) // Verify allocates heavily; the live heap is tiny
+	states := c05States(b.families)
+	var famText []string
+	for _, f := range b.families {
+		var vn []string
+		for _, v := range f.vals {
+			vn = append(vn, c05ValName(v))
+		}
+		famText = append(famText, fmt.Sprintf("%d..%d entries x values {%s}", f.minN, f.maxN, strings.Join(vn, ",")))
+	}
+	r.Rule = fmt.Sprintf("states: every map with %s (vN = N bytes of 0x33) over keys {%s}, V0 and V1, built with the real trie, root compared with the reference root, persisted with WriteDirty to a map database. "+
+		"Completeness: Generate(root, Q, db) for every key set Q, |Q|<=2 (ordered pairs: %t) over these keys + absent probes {%s}; a successful Generate must let every present key of Q verify with its value and as existence query; all-present Q must generate. "+
+		"Soundness: on every generated proof and every adversarial proof (all sub-sets of size <= %d of nodes(S) u nodes(S') for the fixed foreign state and %s [size <= %d], honest full set as is/reversed/with each node duplicated, and for states of <= %d entries with values in {%s} %s of every node both replacing the node and added to the honest set) Verify is called for all keys and probes x {v1,v29,v32,v33,H(v33),empty}; "+
 		"every pair not in the state must be rejected. Adversarial nodes come from the reference encoder (inline nodes and raw hashed values included). Non-trivial = proof in which the root node was found.",
-		b.maxEntries, b.orderedPairs, b.subsetMax, map[bool]string{false: "the first value-changed/key-added/key-removed neighbour state", true: "every edit-distance-1 neighbour state"}[b.allNeighbours],
-		b.neighbourMax, b.substEntries, map[bool]string{false: "single-bit flip", true: "single-byte substitution"}[b.fullSubst])
+		strings.Join(famText, " and "), c05KeyList(c05Alphabet), b.orderedPairs, c05KeyList(c05Probes), b.subsetMax, map[bool]string{false: "the first value-changed/key-added/key-removed neighbour state", true: "every edit-distance-1 neighbour state"}[b.allNeighbours],
+		b.neighbourMax, b.substEntries, c05ValNames(b.substVals), map[bool]string{false: "single-bit flips (all 8 bits at offsets 0-3 and the last offset, bit 0 at every other offset)", true: "every single-bit flip at every offset"}[b.fullSubst])
 	r.Assumption("reference node encoder / root (engine/ref/reftrie.go); BLAKE2b-256 from x/crypto")
 
 	res := make([]*c05Ctx, len(states))
 	verifmc.ParallelFor(r, len(states), func(i int) {
-		res[i] = c05RunState(states[i], b)
+		res[i] = c05RunState(states[i], b, r.Expired)
 	}, func(i int, msg string) {
 		r.Violate("Harness:panic", fmt.Sprintf("state %s V%d: %s", c05MapString(states[i].m), states[i].ver, msg), nil)
 	})
@@ -741,6 +809,9 @@ func TestVerif_C05(t *testing.T) {
 			continue
 		}
 		r.Add("states", 1)
+		if c.capped {
+			r.Capped("deadline reached inside a state: remaining proofs of that state skipped")
+		}
 		for k, n := range c.cnt {
 			r.Add(k, n)
 		}
